@@ -587,13 +587,17 @@ def opX18 (args obs : List String) : P String := do
                       showBool (ks.any (fun k => decide (k < fmt.lo))), showBool (decide (64 ≤ fmt.nword))] obs)
   | _ => throw "X18: arity"
 
-/-- `EX <signed> <n1> <n2> | ext(after construction) ext(after resize) ext(after reset)` -/
+/-- `EX <signed> <n1> <n2> | extended_prec after construction, resize, reset, like= (value), like= (empty), deepcopy,
+indexing, word-only construction, x + x` -/
 def opEX (args obs : List String) : P String := do
   match args with
   | [_s, n1, n2] =>
     let n1 ← pNat n1
     let n2 ← pNat n2
-    pure (functional [showBool (decide (64 ≤ n1)), showBool (decide (64 ≤ n2)), showBool (decide (64 ≤ n2))] obs)
+    -- after construction (n1); after resize, reset, `like=` (value / empty), deepcopy, indexing, word-only construction (n2);
+    -- x + x (one bit more)
+    let e2 := showBool (decide (64 ≤ n2))
+    pure (functional [showBool (decide (64 ≤ n1)), e2, e2, e2, e2, e2, e2, e2, showBool (decide (64 ≤ n2 + 1))] obs)
   | _ => throw "EX: arity"
 
 /-- `BI <fmt> <rounding> <overflow> <route> [ints] | [codes]` — Python integers of any size stored by value
